@@ -84,8 +84,8 @@ def install_node_counter(D) -> None:
         D.DependencyNode._verif_orig_init = D.DependencyNode.__init__
     base_init = D.DependencyNode._verif_orig_init
 
-    def counting_init(node, key, metadata):
-        base_init(node, key, metadata)
+    def counting_init(node, *args, **kwargs):     # whatever arguments the code constructs its nodes with
+        base_init(node, *args, **kwargs)
         if History.current is not None:
             History.current.all_nodes.append(node)
     D.DependencyNode.__init__ = counting_init
@@ -139,6 +139,7 @@ class History:
         except BaseException as ex:  # noqa: BLE001
             if isinstance(ex, (KeyboardInterrupt, SystemExit)):
                 raise
+            common.reraise_harness_fault(ex)     # an error of the node-counting __init__ is not the graph's
             self.obs.append(["ERR", graphenc.exc_class(ex)])
             return False
 
@@ -410,6 +411,7 @@ def run_jsonops(jsonops: List[Any]) -> Dict[str, Any]:
         except BaseException as ex:  # noqa: BLE001
             if isinstance(ex, (KeyboardInterrupt, SystemExit)):
                 raise
+            common.reraise_harness_fault(ex)
             return {"error": graphenc.exc_class(ex), "at": k}
     return {"error": None, "incoherent": coherence_violation(d)}
 
